@@ -220,7 +220,20 @@ impl PathSliceList {
         is_template_data: bool,
     ) -> Result<String, TmplError> {
         let mut ret = String::new();
+        let mut prev_is_combination = false;
         for path_slice in self.0.iter() {
+            // the update path tree of an object or array literal is a combination of the trees of its parts,
+            // which cannot be indexed like data: a member of a literal is changed whenever any part is
+            let is_combination = matches!(
+                path_slice,
+                PathSlice::CombineObj(..) | PathSlice::CombineArr(..)
+            );
+            if prev_is_combination {
+                if let PathSlice::StaticMember(_) | PathSlice::IndirectValue(_) = path_slice {
+                    ret = format!("!!({})", ret);
+                }
+            }
+            prev_is_combination = is_combination;
             match path_slice {
                 PathSlice::Ident(s) => write!(&mut ret, "U.{}", s)?,
                 PathSlice::ScopeIndex(i) => {
